@@ -3,7 +3,7 @@
 # usage: tools/seedsweep.sh [pattern]     e.g. tools/seedsweep.sh C07
 cd "$(dirname "$0")/.."
 export GOFLAGS=-mod=mod GOPROXY=off GOSUMDB=off GOTOOLCHAIN=local
-for d in seeded/*${1:-}*/; do
+for d in seeded/C*${1:-}*/; do
   name=$(basename $d); id=${name%%-*}
   # a seed that is reported by another property's check names it in meta.json ("sweep_check")
   alt=$(python3 -c "import json;print(json.load(open('$d/meta.json')).get('sweep_check',''))" 2>/dev/null); [ -n "$alt" ] && id=$alt
